@@ -13,7 +13,7 @@ RULE = ("structurally mutated grammar and fixture documents (delete / retype / r
 
 def correspond(ctx, C):
     st = S.SpecStats()
-    rows = S.run(ctx, C, "specmut", 160, 4000) + S.run(ctx, C, "specfix", 208, 208) + S.run(ctx, C, "speccat", 128, 1280) + S.run(ctx, C, "spec", 256, 4000)
+    rows = S.run(ctx, C, "specmut", 160, 4000) + S.run(ctx, C, "specfix", 208, 208) + S.run(ctx, C, "speccat", 196, 1960) + S.run(ctx, C, "spec", 256, 4000)
     known = S.known_for(C, "C07")
     viol, attributed, sites = [], {}, {}
     for r in rows:
